@@ -166,13 +166,13 @@ def value_arg_roots(f, o, limit=200):
     return out
 
 
-def reach_under(f, known, targets, start=0, avoid=(), cut=(), carry=(), on_edge=None):
+def reach_under(f, known, targets, start=0, avoid=(), cut=(), carry=(), on_edge=None, args=None):
     """Path-sensitive reachability with partial evaluation: `known(inst)` returns an int for instructions whose value is assumed
     (or None); integer/boolean arithmetic, casts, llvm.expect and phis (resolved along the path) are folded; a conditional branch whose
     condition folds takes only that side.  Returns the subset of `targets` (block ids) that some path from `start` reaches.
     `avoid`: blocks no path may enter; `cut`: edges (from, to) no path may take; `carry`: ids of phis whose incoming operand is
     carried along the path as a token ('val', operand) (a carried phi flowing into a carried phi keeps its token);
-    `on_edge(from, to, tokens)` is called for every edge a path takes, cut edges included."""
+    `on_edge(from, to, tokens)` is called for every edge a path takes, cut edges included; `args`: {parameter index: assumed value}."""
     def sgn(v, bits):
         v &= (1 << bits) - 1
         return v - (1 << bits) if bits > 1 and v >> (bits - 1) else v
@@ -195,6 +195,8 @@ def reach_under(f, known, targets, start=0, avoid=(), cut=(), carry=(), on_edge=
                 return int(o[1])
             if o[0] == 'n':
                 return 0
+            if o[0] == 'a' and args and o[1] in args:
+                return int(args[o[1]])
             if o[0] != 'v':
                 return None
             x = f.by_id[o[1]]
